@@ -103,6 +103,9 @@ func enter(c inCtx, kind, tag, arg string) (*Env, *Op) {
 		Method: c.ServiceMethod(), Arg: arg, Meta: metaString(c.VisitMeta)}
 	e.Obs.RecordHandler(ev)
 	op := e.OpByTag[tag]
+	if op == nil && e.AllowUnknownArgs {
+		return e, nil
+	}
 	if op == nil {
 		e.Fail("handler-input-not-sent", "%s handler on %s seq=%d got an argument nobody sent: %q", kind, ev.Sess, ev.Seq, arg)
 		return e, nil
@@ -363,4 +366,28 @@ func (e *Env) complete(op *Op, cmd erpc.CallCmd, res interface{}) {
 func safeInputMeta(cmd erpc.CallCmd) (a *utils.Args) {
 	defer func() { recover() }()
 	return cmd.InputMeta()
+}
+
+// BadResult cannot be marshalled by any codec (func field).
+type BadResult struct {
+	Tag string `json:"tag"`
+	F   func() `json:"f"`
+}
+
+// Weird returns a value no codec can encode: the success reply cannot be packed.
+func (s *Std) Weird(arg *Payload) (*BadResult, *erpc.Status) {
+	e, _ := enter(s, "call", arg.Tag, arg.String())
+	defer leave(e, s, "call")
+	return &BadResult{Tag: arg.Tag, F: func() {}}, nil
+}
+
+// Big returns a payload whose size is arg.N bytes (to exceed a small message size limit).
+func (s *Std) Big(arg *Payload) (*Payload, *erpc.Status) {
+	e, _ := enter(s, "call", arg.Tag, arg.String())
+	defer leave(e, s, "call")
+	n := int(arg.N)
+	if n < 0 || n > 1<<20 {
+		n = 0
+	}
+	return &Payload{Tag: arg.Tag, Data: strings.Repeat("x", n)}, nil
 }
